@@ -5,3 +5,4 @@ import PexpectModel.Drv.Ansi
 import PexpectModel.Drv.Forms
 import PexpectModel.Drv.Transport
 import PexpectModel.Drv.Deadline
+import PexpectModel.Drv.Session
